@@ -17,6 +17,8 @@ VARIABLES st, act, hist
 vars == <<st>>
 
 ND == Len(Dbs)
+\* the exhaustive configurations tell the replayer which layout they are about
+ASSUME MaxHist # 0 \/ PrintT(ToJson([tag |-> "DBS", dbs |-> Dbs]))
 Classes == AllClasses(Dbs)
 
 Init == /\ st = [k \in 1..ND |-> DbInit(Dbs[k])]
@@ -48,15 +50,19 @@ Spec == Init /\ [][Next]_<<st, act, hist>>
 (* ---- simulation over a large (real) database: one random successor -------- *)
 \* Hot = entities whose bases live in another block, their bases, aliases
 CONSTANTS Hot
-Pick == IF Hot # {} /\ RandomElement(1..3) = 1 THEN RandomElement(Hot) ELSE RandomElement(Classes)
-SimNext == \/ /\ RandomElement(1..12) > 1
-              /\ \E e \in {Pick} : Query(e)
-           \/ /\ RandomElement(1..2) = 1
+\* (operators with a parameter: TLC would evaluate a parameterless one only once)
+Pick(h) == IF Hot # {} /\ RandomElement(1..3) = 1 THEN RandomElement(Hot) ELSE RandomElement(Classes)
+Dice(h, n) == RandomElement(1..n)
+SimNext == \/ /\ Dice(hist, 12) > 1
+              /\ \E e \in {Pick(hist)} : Query(e)
+           \/ /\ Dice(hist, 3) = 1
               /\ QueryMissing
-           \/ /\ Len(hist) > 3 /\ RandomElement(1..6) = 1
+           \/ /\ Len(hist) > 3 /\ Dice(hist, 12) = 1
               /\ LoadAll
 SimSpec == Init /\ [][SimNext]_<<st, act, hist>>
 EmitBehaviour == Len(hist) < MaxHist \/ PrintT(ToJson([tag |-> "BEH", h |-> hist]))
+\* the expensive invariants, at the end of each simulated behaviour only
+AtEnd(P) == Len(hist) < MaxHist \/ P
 
 (* ---- the listed property and what makes it hold --------------------------- *)
 Once == \A k \in 1..ND : ParsedOnce(Dbs[k], st[k])
@@ -67,6 +73,12 @@ IdentityStable == [][\A k \in 1..ND : Stable(st[k], st'[k])]_vars
 \* after LoadAll nothing is left unparsed, and LoadAll reached from any history
 \* ends in the same definitions (SameAsFull) with every block parsed once (Once)
 AllAfterLoad == \A k \in 1..ND : st[k].fgd => st[k].parsed = 1..NBlocks(Dbs[k])
+DbsWellFormed == \A k \in 1..ND : WellFormed(Dbs[k])
+InitWellFormed == Len(hist) > 0 \/ DbsWellFormed
+EndOnce == AtEnd(Once)
+EndConsistent == AtEnd(Consistent)
+EndResolved == AtEnd(Resolved)
+EndSameAsFull == AtEnd(SameAsFull)
 
 View == vars
 Emit == PrintT(ToJson([tag |-> "EDGE", s |-> st, a |-> act', t |-> st']))
